@@ -24,7 +24,7 @@ func init() {
 		Real: "real: all of kvql from /repo's working tree; simulated: storage engine, caller, model map",
 		NCases: func(tier string) int {
 			if tier == "thorough" {
-				return 2000000
+				return 6000000
 			}
 			return 40000
 		},
